@@ -648,7 +648,7 @@ func (fc *FuncCtx) modifiesKeys(fn *types.Func, item string, as *assignedSet) {
 			if bt == nil {
 				return nil
 			}
-			obj, _, _ := types.LookupFieldOrMethod(bt, true, fn.Pkg(), x.Name)
+			obj, _, _ := lookupFM(bt, fn.Pkg(), x.Name)
 			if f, ok := obj.(*types.Var); ok {
 				return f.Type()
 			}
@@ -670,7 +670,7 @@ func (fc *FuncCtx) modifiesKeys(fn *types.Func, item string, as *assignedSet) {
 	case "sel":
 		bt := typeOf(e.Args[0])
 		if bt != nil {
-			obj, _, _ := types.LookupFieldOrMethod(bt, true, fn.Pkg(), e.Name)
+			obj, _, _ := lookupFM(bt, fn.Pkg(), e.Name)
 			if f, ok := obj.(*types.Var); ok {
 				as.fields[fc.fieldKey(f)] = fc.sortOf(f.Origin().Type())
 			}
